@@ -425,3 +425,55 @@ pub mod rvals {
 pub mod rerrs {
     pub use super::{ErrorKind, SteelErr};
 }
+
+// ---------------------------------------------------------------- dependency contract for exact-integer-sqrt
+/// `num_integer::Roots::sqrt` as an ASSUMED CONTRACT (the real implementation mixes a floating-point guess
+/// with a Newton iteration over 64-bit divisions; out of CBMC's reach): for x >= 0 it returns THE s with
+/// s*s <= x < (s+1)*(s+1). Every call is logged.
+pub mod isqrt_dep {
+    pub static mut SQRT_CALLS: u32 = 0;
+    pub static mut SQRT_RESULT: i128 = 0;
+    pub trait Roots: ::num_integer::Integer {
+        fn sqrt(&self) -> Self;
+    }
+    /// 64-bit arithmetic only (a 128-bit multiplier does not finish in CBMC)
+    #[cfg(kani)]
+    fn floor_sqrt(x: isize) -> isize {
+        assert!(x >= 0, "Roots::sqrt of a negative number panics");
+        let s: isize = kani::any();
+        kani::assume(s >= 0 && s <= 3037000499);
+        let sq = s * s;
+        kani::assume(sq <= x && x - sq <= 2 * s);
+        unsafe {
+            SQRT_CALLS += 1;
+            SQRT_RESULT = s as i128;
+        }
+        s
+    }
+    #[cfg(not(kani))]
+    fn floor_sqrt(x: isize) -> isize {
+        let mut s = (x as f64).sqrt() as isize;
+        while s * s > x {
+            s -= 1;
+        }
+        while (s + 1) * (s + 1) <= x {
+            s += 1;
+        }
+        unsafe {
+            SQRT_CALLS += 1;
+            SQRT_RESULT = s as i128;
+        }
+        s
+    }
+    impl Roots for isize {
+        fn sqrt(&self) -> Self {
+            floor_sqrt(*self)
+        }
+    }
+    impl Roots for super::BigInt {
+        /// bignum roots are outside the model domain: reported, never silently wrong
+        fn sqrt(&self) -> Self {
+            panic!("isqrt_dep: bignum square roots are not modelled")
+        }
+    }
+}
